@@ -21,9 +21,10 @@ open CC Proto
 
 structure Gen where
   len : Nat
-  seed : Nat
+  seed : UInt64
   pat : Nat
-  period : Nat
+  /-- `max period 1` -/
+  period : UInt64
   badLo : Nat
   badHi : Nat
 
@@ -37,17 +38,24 @@ def mix (seed i : UInt64) : UInt64 :=
 pat 0: pseudo-random bytes; pat 1: a zero byte exactly at `i ≡ seed (mod period)`, non-zero elsewhere;
 pat 2: zero bytes at pseudo-random positions of density `1/period`, non-zero elsewhere; otherwise `i mod 251`. -/
 def genByte (g : Gen) (i : Nat) : UInt8 :=
-  let h := mix g.seed.toUInt64 i.toUInt64
-  let nz : UInt8 := (1 + (h >>> 8).toNat % 255).toUInt8
-  let p := max g.period 1
+  let i64 := i.toUInt64
+  let seed := g.seed
+  let h := mix seed i64
+  let nz : UInt8 := ((h >>> 8) % 255 + 1).toUInt8
+  let p := g.period
   match g.pat with
   | 0 => (h >>> 56).toUInt8
-  | 1 => if i % p = g.seed % p then 0 else nz
-  | 2 => if (h >>> 24).toNat % p = 0 then 0 else nz
-  | _ => (i % 251).toUInt8
+  | 1 => if i64 % p = seed % p then 0 else nz
+  | 2 => if (h >>> 24) % p = 0 then 0 else nz
+  | _ => (i64 % 251).toUInt8
 
 /-- the file's bytes `[o, o+n)` — this *is* the definition of the file -/
-def fileSlice (g : Gen) (o n : Nat) : List UInt8 := (List.range n).map (fun k => genByte g (o + k))
+def fileSlice (g : Gen) (o n : Nat) : List UInt8 :=
+  let rec go (k : Nat) (acc : List UInt8) : List UInt8 :=
+    match k with
+    | 0 => acc
+    | k + 1 => go k (genByte g (o + k) :: acc)
+  go n []
 
 def hitsBad (g : Gen) (o n : Nat) : Bool := decide (0 < n) && decide (o < g.badHi) && decide (g.badLo < o + n)
 
@@ -58,7 +66,7 @@ def src (g : Gen) (o n : Nat) : Option (List UInt8) :=
 def parseGen (l : String) : Option Gen :=
   match words l with
   | ["file", a, b, c, d, e, f] => do
-    pure ⟨← a.toNat?, ← b.toNat?, ← c.toNat?, ← d.toNat?, ← e.toNat?, ← f.toNat?⟩
+    pure ⟨← a.toNat?, (← b.toNat?).toUInt64, ← c.toNat?, (max (← d.toNat?) 1).toUInt64, ← e.toNat?, ← f.toNat?⟩
   | _ => none
 
 def parseOpWords : List String → Option Op
@@ -143,7 +151,10 @@ def isErr (o : String) : Bool := o.startsWith "err:"
 
 /-- judge one outcome line against the file -/
 def judgeOp (g : Gen) (op : Op) (o : String) : Verdict :=
-  if o = "panic" then .bad "implementation panicked" else
+  if o = "panic" then
+    -- excluded point of the theorems (`F.length + chunk < 2^64`): tagged so that it can be told apart
+    (if U64 ≤ g.len + realChunk then .bad "[file-within-one-chunk-of-2^64] implementation panicked"
+     else .bad "implementation panicked") else
   if !(isErr o || o.startsWith "ok ") then .bad s!"unparsable output {o}" else
   match op with
   | .read off n =>
